@@ -8,17 +8,17 @@ SHARED = ["refs/s/a", "refs/s/b", "refs/s/c"]
 INVARIANTS = [
     "C04_NoLostNoPhantom", "C04_AckIffCommitted", "C04_OneAtATime", "C04_OnlyLockFailures", "C04_FinalView",
     "C05_ListIntegrity", "C05_NoGc", "C06_Atomic", "C08_OwnerOnly", "C09_StaleNeverCommits",
-    "C10_OneVersion", "C10_Readable", "C10_Content", "C16_IdleOwnsNothing", "C16_QuiescentDir", "C16_GcSucceeds",
+    "C10_OneVersion", "C10_Readable", "C10_Content", "C10_Terminates", "C16_IdleOwnsNothing", "C16_QuiescentDir", "C16_GcSucceeds",
 ]
 
 # which invariants decide which property (C06 = the C04/C05 state predicates in runs with crashes)
 PROP_INVS = {
-    "C04": ["C04_NoLostNoPhantom", "C04_AckIffCommitted", "C04_OneAtATime", "C04_OnlyLockFailures", "C04_FinalView"],
+    "C04": ["C04_NoLostNoPhantom", "C04_AckIffCommitted", "C04_OneAtATime", "C04_OnlyLockFailures", "C04_FinalView", "C10_Terminates"],
     "C05": ["C05_ListIntegrity", "C05_NoGc"],
     "C06": ["C06_Atomic", "C05_ListIntegrity", "C05_NoGc", "C04_NoLostNoPhantom", "C04_AckIffCommitted", "C04_FinalView", "C10_Readable"],
     "C08": ["C08_OwnerOnly"],
     "C09": ["C09_StaleNeverCommits", "C09_Refreshed"],
-    "C10": ["C10_OneVersion", "C10_Readable", "C10_Content"],
+    "C10": ["C10_OneVersion", "C10_Readable", "C10_Content", "C10_Terminates"],
     "C16": ["C16_IdleOwnsNothing", "C16_QuiescentDir", "C16_GcSucceeds"],
 }
 
@@ -51,7 +51,7 @@ class TxnGen:
 
 
 def random_call(rng, tg, weights=None):
-    ops = weights or [("add", 5), ("addition", 1), ("overlap", 1), ("empty", 1), ("compactall", 3), ("compactrange", 2), ("autocompact", 1),
+    ops = weights or [("add", 5), ("addition", 1), ("overlap", 1), ("conflict", 1), ("empty", 1), ("compactall", 3), ("compactrange", 2), ("autocompact", 1),
                       ("reload", 2), ("open", 1), ("clean", 1), ("closeopen", 1), ("read", 1)]
     tot = sum(w for _, w in ops)
     x = rng.random() * tot
@@ -63,6 +63,11 @@ def random_call(rng, tg, weights=None):
         return [tg.add()]
     if op == "addition":
         return [tg.addition()]
+    if op == "conflict":
+        # a transaction that the name rule may have to refuse (refs/s/a vs refs/s/a/sub)
+        c = tg.add()
+        c["parts"] = [[[rng.choice(["refs/s/a/sub", "refs/s/b/sub"]), "v%d" % c["txn"]]]]
+        return [c]
     if op == "overlap":
         c = tg.addition()
         c["op"] = "overlap"
@@ -220,6 +225,8 @@ def run_of_acts(acts, rid, initn, hash_="sha1", nh=None):
                 c = {"op": "addition", "txn": txn, "parts": [part() for _ in range(parts)]}
             elif op == "empty":
                 c = {"op": "add", "txn": txn, "parts": [[]]}
+            elif op == "compactall" and first == 0:
+                c = {"op": "compactall"}
             elif op in ("compactall", "compactrange"):
                 c = {"op": "compactrange", "first": first - 1, "last": last - 1}
             elif op == "reopen":
@@ -262,13 +269,14 @@ def tlc_walks(workdir, cfg_text, num, depth, seed, timeout=300):
     return walks, r
 
 
-def proto_cfg(handles, maxops, maxids, initn, opkinds, crash=False, knobs=None, invariants=True, readers=(), readerops=()):
+def proto_cfg(handles, maxops, maxids, initn, opkinds, crash=False, knobs=None, invariants=True, readers=(), readerops=(), readermax=None):
     k = dict(FixRelockOwner=True, FixRebase=True, FixTmpCleanup=True, FixReuseClose=True, FixCleanEnoent=True)
     k.update(knobs or {})
     t = "SPECIFICATION Spec\nCONSTANTS\n"
     t += "  Handles = {%s}\n  MaxOps = %d\n  MaxIds = %d\n  InitN = %d\n" % (", ".join(map(str, handles)), maxops, maxids, initn)
     t += "  OpKinds = {%s}\n  CrashOn = %s\n" % (", ".join('"%s"' % o for o in opkinds), "TRUE" if crash else "FALSE")
-    t += "  ReaderHandles = {%s}\n  ReaderOps = {%s}\n" % (", ".join(map(str, readers)), ", ".join('"%s"' % o for o in readerops))
+    t += "  ReaderHandles = {%s}\n  ReaderOps = {%s}\n  ReaderMaxOps = %d\n" % (", ".join(map(str, readers)), ", ".join('"%s"' % o for o in readerops),
+                                                                                  maxops if readermax is None else readermax)
     for name, v in k.items():
         t += "  %s = %s\n" % (name, "TRUE" if v else "FALSE")
     t += "VIEW view\nCHECK_DEADLOCK FALSE\n"
@@ -280,3 +288,139 @@ def proto_cfg(handles, maxops, maxids, initn, opkinds, crash=False, knobs=None, 
 PROTO_INVS = ["C04_NoLostNoPhantom", "C04_AckIffCommitted", "C04_OneAtATime", "C04_OnlyLockFailures", "C04_CommitOrder",
               "C05_ListIntegrity", "C05_NoGc", "C06_Atomic", "C08_OwnerOnly", "C08_LockMutex", "C09_StaleNeverCommits",
               "C10_Snapshot", "C16_IdleOwnsNothing", "C16_QuiescentDir", "C16_GcSucceeds"]
+
+
+# ----------------------------------------------------------------------------- direction A, systematic: transition cover
+
+OPMAP = {
+    "R_Read": ("readfile", "list"), "R_Open": ("open", "tab"), "R_Reread": ("readfile", "list"), "R_Gc": ("remove", "tab"),
+    "A_Lock": ("createexcl", "listlock"), "A_UpToDate": ("readfile", "list"), "A_UnlockStale": ("remove", "listlock"), "A_Temp": ("tempfile", "tmp"),
+    "A_Check": ("open", "tmp"), "A_CheckNew": ("open", "tab"), "A_RenameTab": ("rename", "tmp"), "A_RmTmp": ("remove", "tmp"), "A_Write": ("write", "listlock"),
+    "A_Commit": ("rename", "listlock"), "A_CloseRm": ("remove", "tab"), "A_CloseUnlock": ("remove", "listlock"),
+    "K_Lock": ("createexcl", "listlock"), "K_UpToDate": ("readfile", "list"), "K_SubLock": ("createexcl", "tablock"), "K_Unlock": ("remove", "listlock"),
+    "K_Temp": ("tempfile", "tmp"), "K_Relock": ("createexcl", "listlock"), "K_Rebase": ("readfile", "list"), "K_RenameTab": ("rename", "tmp"),
+    "K_Write": ("write", "listlock"), "K_Commit": ("rename", "listlock"), "K_RmDest": ("remove", "tab"), "K_Delete": ("remove", "tab"),
+    "K_ClTmp": ("remove", "tmp"), "K_ClSub": ("remove", "tablock"), "K_ClLock": ("remove", "listlock"),
+    "C_Read": ("readfile", "list"), "C_Gc": ("remove", "tab"),
+    "L_Lock": ("createexcl", "listlock"), "L_UpToDate": ("readfile", "list"), "L_ReadDir": ("readdir", "other"), "L_Open": ("open", "tab"),
+    "L_Remove": ("remove", "tab"), "L_Unlock": ("remove", "listlock"),
+}
+
+
+def parse_dot(path):
+    """TLC's `-dump dot,actionlabels` graph -> (init id, {id: nextTxn}, {src: [(dst, act dict)]})"""
+    node_re = re.compile(r'^(-?\d+) \[label="(.*)"[^"]*\]?;?$')
+    edge_re = re.compile(r'^(-?\d+) -> (-?\d+) \[label="(\w+)\((.*?)\)?"')
+    nexttxn, edges, order = {}, {}, []
+    with open(path) as f:
+        for line in f:
+            if " -> " in line[:60]:
+                m = re.match(r'^(-?\d+) -> (-?\d+) \[label="(\w+)\(?(.{0,200})', line)
+                if not m:
+                    continue
+                src, dst, name, rest = m.group(1), m.group(2), m.group(3), m.group(4)
+                edges.setdefault(src, []).append((dst, name, rest))
+            else:
+                m = re.match(r'^(-?\d+) \[label="', line)
+                if m:
+                    nid = m.group(1)
+                    t = re.search(r'nextTxn = (\d+)', line)
+                    nexttxn[nid] = int(t.group(1)) if t else 0
+                    order.append(nid)
+    init = order[0] if order else None
+    return init, nexttxn, edges
+
+
+def act_of_edge(name, rest, src_txn):
+    rest = rest.replace('\\"', '"')
+    hm = re.match(r'(\d+)', rest)
+    h = int(hm.group(1)) if hm else 0
+    if name == "StartAdd":
+        m = re.match(r'(\d+),\s*(\d+),\s*"(\w+)"', rest)
+        parts, op = int(m.group(2)), m.group(3)
+        return {"a": "Start_" + op, "h": h, "op": "call", "pk": "", "res": "", "arg": [op, src_txn, parts, 0, 0]}
+    if name == "StartCompactAll":
+        return {"a": "Start_compactall", "h": h, "op": "call", "pk": "", "res": "", "arg": ["compactall", 0, 0, 0, 0]}
+    if name == "StartCompact":
+        m = re.match(r'(\d+),\s*(\d+),\s*(\d+),\s*"(\w+)"', rest)
+        if not m:     # compactall: the upper end is an expression (Len(stack[h])), not a number
+            return {"a": "Start_compactall", "h": h, "op": "call", "pk": "", "res": "", "arg": ["compactall", 0, 0, 0, 0]}
+        return {"a": "Start_" + m.group(4), "h": h, "op": "call", "pk": "", "res": "", "arg": [m.group(4), 0, 0, int(m.group(2)), int(m.group(3))]}
+    if name == "StartOther":
+        m = re.match(r'(\d+),\s*"(\w+)"', rest)
+        return {"a": "Start_" + m.group(2), "h": h, "op": "call", "pk": "", "res": "", "arg": [m.group(2), 0, 0, 0, 0]}
+    if name == "Crash":
+        return {"a": "Crash", "h": h, "op": "crash", "pk": "", "res": "", "arg": []}
+    if name in OPMAP:
+        return {"a": name, "h": h, "op": OPMAP[name][0], "pk": OPMAP[name][1], "res": "", "arg": []}
+    return {"a": "Ret" if name not in ("A_Done", "K_Reloaded") else name, "h": h, "op": "internal", "pk": "", "res": "", "arg": []}
+
+
+def transition_cover(init, nexttxn, edges, max_paths, rng):
+    """Paths from the initial state that together traverse every edge (or as many as max_paths allows).
+    Greedy: walk along uncovered edges; when stuck, go by a shortest path to the nearest state with an uncovered edge."""
+    covered = set()
+    total = sum(len(v) for v in edges.values())
+    paths = []
+    # BFS parents for shortest paths from init
+    parent = {init: None}
+    queue = [init]
+    for s in queue:
+        for k, (d, name, rest) in enumerate(edges.get(s, [])):
+            if d not in parent:
+                parent[d] = (s, k)
+                queue.append(d)
+    has_uncov = lambda s: any((s, k) not in covered for k in range(len(edges.get(s, []))))
+    pending = [s for s in queue if edges.get(s)]
+    pi = 0
+    while len(covered) < total and len(paths) < max_paths:
+        # next state (in BFS order) that still has an uncovered outgoing edge
+        while pi < len(pending) and not has_uncov(pending[pi]):
+            pi += 1
+        if pi >= len(pending):
+            break
+        target = pending[pi]
+        chain = []
+        s = target
+        while parent[s] is not None:
+            p, k = parent[s]
+            chain.append((p, k))
+            s = p
+        chain.reverse()
+        path = []
+        for (p, k) in chain:
+            covered.add((p, k))
+            d, name, rest = edges[p][k]
+            path.append(act_of_edge(name, rest, nexttxn.get(p, 0)))
+        s = target
+        while True:
+            outs = edges.get(s, [])
+            unc = [k for k in range(len(outs)) if (s, k) not in covered]
+            if not unc:
+                break
+            k = unc[0] if rng is None else rng.choice(unc)
+            covered.add((s, k))
+            d, name, rest = outs[k]
+            path.append(act_of_edge(name, rest, nexttxn.get(s, 0)))
+            s = d
+            if len(path) > 400:
+                break
+        paths.append(path)
+    return paths, len(covered), total
+
+
+def tlc_cover(workdir, cfg_text, max_paths, seed, workers=4, timeout=600):
+    """Exhaustive TLC run with a graph dump; returns (paths as act sequences, covered edges, total edges, tlc result)."""
+    sd = os.path.join(workdir, "coverspec-%d" % seed)
+    shutil.copytree(os.path.join(C.VERIF, "spec"), sd)
+    with open(os.path.join(sd, "cover.cfg"), "w") as f:
+        f.write(cfg_text)
+    r = C.tlc(sd, "StackProto", "cover.cfg", workdir, workers=workers, timeout=timeout, heap="6g", extra=["-dump", "dot,actionlabels", os.path.join(sd, "graph")])
+    dot = os.path.join(sd, "graph.dot")
+    if r["rc"] == -9 or not os.path.exists(dot):
+        shutil.rmtree(sd, ignore_errors=True)
+        raise C.Inconclusive("TLC graph dump failed:\n" + r["out"][-1500:])
+    init, nexttxn, edges = parse_dot(dot)
+    shutil.rmtree(sd, ignore_errors=True)
+    paths, cov, total = transition_cover(init, nexttxn, edges, max_paths, random.Random(seed))
+    return paths, cov, total, r
